@@ -109,41 +109,6 @@ def errorResult : GoFields := param [] (tName "error")
 
 /-! ## package uses -/
 
-mutual
-def GoTy.quals : GoTy → List Bytes
-  | .name _ => []
-  | .qual p _ => [p]
-  | .ptr t => t.quals
-  | .slice t => t.quals
-  | .map t => t.quals
-  | .struct fs => fs.quals
-  | .func p r => p.quals ++ r.quals
-def GoFields.quals : GoFields → List Bytes
-  | .nil => []
-  | .cons _ t _ r => t.quals ++ r.quals
-end
-
-def Expr.quals : Expr → List Bytes
-  | .ident _ => []
-  | .sel _ _ => []
-  | .conv t _ e => t.quals ++ e.quals
-
-mutual
-def Stmt.quals : Stmt → List Bytes
-  | .var _ t => t.quals
-  | .define _ => []
-  | .set l r => l.quals ++ r.quals
-  | .args _ as => (as.map Expr.quals).flatten
-  | .use _ _ => []
-  | .strArg _ _ _ => []
-  | .retString _ => []
-  | .closure p r b => p.quals ++ r.quals ++ Stmt.qualsList b
-  | .caseBlock _ b => Stmt.qualsList b
-def Stmt.qualsList : List Stmt → List Bytes
-  | [] => []
-  | s :: r => s.quals ++ Stmt.qualsList r
-end
-
 /-- imported package names in the canonical (sorted) order -/
 def canonPkgs : List Bytes := [str "context", str "fmt", str "json", str "varlink"]
 
@@ -313,35 +278,39 @@ def descriptionValue (description : Bytes) : Bytes := description ++ [nl]
 /-- strip the quotes of an entry of `importList` -/
 def unquote (s : Bytes) : Bytes := (s.drop 1).dropLast
 
-def genFile (t : Idl) : Option GoFile :=
+/-- the file, given the results of the loops (source order of main.go) -/
+def assembleFile (t : Idl) (body : Bytes) (aliases errors clients : List Decl) (ifaceMethods : List IfaceMethod)
+    (errorReplies methodReplies dummies : List Decl) (cases : List Stmt) : GoFile :=
   let pkg := pkgName t.name
   let ifaceName := pkg ++ str "Interface"
+  { pkg := pkg
+    imports := (importList body).map unquote
+    decls :=
+      aliases ++ errors ++ [dispatchErrorView t.name t.errors] ++ clients
+      ++ [.iface ifaceName ifaceMethods,
+          .type (str "VarlinkCall") (.struct (param [] (.qual (str "varlink") (str "Call"))))]
+      ++ errorReplies ++ methodReplies ++ dummies
+      ++ [.func (mkFunc varlinkIfaceRecv (str "VarlinkDispatch")
+            (ctxParam.append ((param (str "call") (.qual (str "varlink") (str "Call"))).append
+              (param (str "methodname") (tName "string"))))
+            errorResult (cases ++ [.caseBlock none []])),
+          .func (mkFunc varlinkIfaceRecv (str "VarlinkGetName") .nil (param [] (tName "string"))
+            [.retString t.name]),
+          .func (mkFunc varlinkIfaceRecv (str "VarlinkGetDescription") .nil (param [] (tName "string"))
+            [.retString (descriptionValue t.description)]),
+          .type (str "VarlinkInterface") (.struct (param [] (.name ifaceName))),
+          .func (mkFunc none (str "VarlinkNew") (param (str "m") (.name ifaceName))
+            (param [] (.ptr (tName "VarlinkInterface"))) [])] }
+
+def genFile (t : Idl) : Option GoFile :=
   match bodyText t,
         concatOptL aliasView t.aliases, concatOptL errorView t.errors,
         concatOptL (methodClientView t.name) t.methods, concatOptL ifaceMethodView t.methods,
         concatOptL (errorReplyView t.name) t.errors, concatOptL methodReplyView t.methods,
-        concatOptL (dummyView t.name) t.methods, concatOptL (dispatchCaseView pkg) t.methods with
+        concatOptL (dummyView t.name) t.methods, concatOptL (dispatchCaseView (pkgName t.name)) t.methods with
   | some body, some aliases, some errors, some clients, some ifaceMethods, some errorReplies,
     some methodReplies, some dummies, some cases =>
-    some {
-      pkg := pkg
-      imports := (importList body).map unquote
-      decls :=
-        aliases ++ errors ++ [dispatchErrorView t.name t.errors] ++ clients
-        ++ [.iface ifaceName ifaceMethods,
-            .type (str "VarlinkCall") (.struct (param [] (.qual (str "varlink") (str "Call"))))]
-        ++ errorReplies ++ methodReplies ++ dummies
-        ++ [.func (mkFunc varlinkIfaceRecv (str "VarlinkDispatch")
-              (ctxParam.append ((param (str "call") (.qual (str "varlink") (str "Call"))).append
-                (param (str "methodname") (tName "string"))))
-              errorResult (cases ++ [.caseBlock none []])),
-            .func (mkFunc varlinkIfaceRecv (str "VarlinkGetName") .nil (param [] (tName "string"))
-              [.retString t.name]),
-            .func (mkFunc varlinkIfaceRecv (str "VarlinkGetDescription") .nil (param [] (tName "string"))
-              [.retString (descriptionValue t.description)]),
-            .type (str "VarlinkInterface") (.struct (param [] (.name ifaceName))),
-            .func (mkFunc none (str "VarlinkNew") (param (str "m") (.name ifaceName))
-              (param [] (.ptr (tName "VarlinkInterface"))) [])] }
+    some (assembleFile t body aliases errors clients ifaceMethods errorReplies methodReplies dummies cases)
   | _, _, _, _, _, _, _, _, _ => none
 
 end Varlink.Gen
